@@ -72,13 +72,20 @@ def check_class(ctx, u, cls, fs, kind):
     gs = set(got)
     miss = sorted(UNLINK_WANT - gs)
     extra = sorted(gs - UNLINK_WANT)
-    ctx.check(not miss and not extra, R, lab + '|unlink|updates', un, 'head/tail fix-ups, neighbour relinks and both resets present',
+    restructured = len(miss) > 2 or any(v.get('kind') == 'VarDecl' for v in walk(body_of(un))) or any(x.get('kind') == 'IfStmt' and if_parts(x)[2] is not None for x in walk(body_of(un)))
+    if restructured and (miss or extra):
+        # not the four-fix-ups shape at all (if/else pairs, hoisted neighbours ...): this rule cannot judge it
+        ctx.undecided(R, lab + '|unlink|updates', un, 'unlink_item is not written as the four independent fix-ups this rule models (statements: %s)' % sorted(gs)[:6])
+    else:
+      ctx.check(not miss and not extra, R, lab + '|unlink|updates', un, 'head/tail fix-ups, neighbour relinks and both resets present',
               'unlink_item %s%s: a later link/unlink of this or a neighbouring item follows a stale pointer (self-loop / dangling tail after move-to-front then erase)' % (('lacks %s' % miss) if miss else '', (' has unexpected %s' % extra) if extra else ''))
-    ctx.check({dual(x) for x in gs} == gs, R, lab + '|unlink|self-dual', un, 'invariant under head<->tail, prev<->next', 'unlink_item is not symmetric under head<->tail, prev<->next')
+    if not (restructured and (miss or extra)):
+      ctx.check({dual(x) for x in gs} == gs, R, lab + '|unlink|self-dual', un, 'invariant under head<->tail, prev<->next', 'unlink_item is not symmetric under head<->tail, prev<->next')
     # resets come after every read of i->prev / i->next
     resets = [i for i, x in enumerate(got) if x in ('(i.prev = nullptr)', '(i.next = nullptr)')]
     uses = [i for i, x in enumerate(got) if x not in ('(i.prev = nullptr)', '(i.next = nullptr)')]
-    ctx.check(bool(resets) and bool(uses) and min(resets) > max(uses), R, lab + '|unlink|resets-last', un, 'the item\'s own links are cleared after they were used', 'the item\'s links are cleared before the neighbours were relinked')
+    if not (restructured and (miss or extra)):
+      ctx.check(bool(resets) and bool(uses) and min(resets) > max(uses), R, lab + '|unlink|resets-last', un, 'the item\'s own links are cleared after they were used', 'the item\'s links are cleared before the neighbours were relinked')
     gl = stmt_set(ln)
     ctx.check(gl == LINK_WANT or (set(gl) == set(LINK_WANT) and gl.index('(i.next = this.head)') < gl.index('(this.head = i)') and gl.index('if this.head: (this.head.prev = i)') < gl.index('(this.head = i)')), R, lab + '|link|push-front', ln,
               'push-front: i->next = head; old head->prev = i; head = i; tail = i if empty', 'link_item is %s' % gl)
@@ -158,7 +165,9 @@ def check_class(ctx, u, cls, fs, kind):
     ev = byname.get('evict_object', [None])[0]
     if ev is not None:
         sub = [x for x in walk(body_of(ev)) if x.get('kind') == 'CompoundAssignOperator' and canon(x['inner'][0]) == 'this.total_size' and x.get('opcode') == '-=']
-        src = [v for v in walk(body_of(ev)) if v.get('kind') == 'VarDecl' and v.get('name') == 'i' and kids(v)]
+        src = [v for v in walk(body_of(ev)) if v.get('kind') == 'VarDecl' and kids(v) and '*' in (qtype(v) or '') and nf(kids(v)[-1]) == 'this.tail']
+        unl_ = [c for c in walk(body_of(ev)) if c.get('kind') == 'CXXMemberCallExpr' and call_name(c) == 'unlink_item']
+        src = [v for v in src if unl_ and (ref_decl(call_args(unl_[0])[0]) or {}).get('id') == v['id']]
         ctx.check(len(sub) == 1 and src and nf(kids(src[0])[-1]) == 'this.tail', R, lab + '::evict_object|tail-and-total', ev, 'evicts the tail and subtracts its size', 'evict_object does not take the tail entry or does not subtract its size')
 
     # ---- R4 field exhaustiveness of swap
@@ -175,6 +184,10 @@ def check_class(ctx, u, cls, fs, kind):
             saved = any(True for v in walk(body_of(sw)) if v.get('kind') == 'VarDecl' and v.get('name') == 'this_' + fld and kids(v) and nf(kids(v)[-1]) == 'this.' + fld) or 'this.%s.swap(other.%s)' % (fld, fld) in txt
             if a and b and saved:
                 handled.add(fld)
+            # std::swap(this->f, other.f) in any spelling
+            for c_ in walk(body_of(sw)):
+                if c_.get('kind') == 'CallExpr' and call_name(c_) == 'swap' and len(call_args(c_)) == 2 and sorted(nf(x_) for x_ in call_args(c_)) == sorted(['this.%s' % fld, 'other.%s' % fld]):
+                    handled.add(fld)
         ctx.check(handled == set(fields), R, lab + '|swap|all-fields', sw, 'swap exchanges %s' % sorted(fields), 'swap does not exchange %s' % sorted(set(fields) - handled))
     ctx.check(sorted(fields) == ['head', 'items', 'tail', 'total_size'], R, lab + '|fields', rec, 'data members are head, tail, items, total_size', 'class has data members %s: swap/clear rules are written for head, tail, items, total_size' % fields)
 
@@ -288,5 +301,9 @@ def run(ctx):
     for nm in ('unlink_item', 'link_item'):
         fa = next(f for f in a if f.get('name') == nm)
         fb = next(f for f in b if f.get('name') == nm)
+        d_ = set(stmt_set(fa)) ^ set(stmt_set(fb))
+        if len(d_) > 3:
+            ctx.note('%s is written differently in LRUSet and LRUMap (each is judged on its own)' % nm)
+            continue
         ctx.check(stmt_set(fa) == stmt_set(fb), 'C12-R2', 'LRUSet/LRUMap|%s-identical' % nm, fb, 'both containers use the same %s' % nm, '%s differs between LRUSet and LRUMap' % nm)
     ctx.note('Instantiation matrix: LRUSet<int>, LRUSet<std::string>, LRUMap<int,std::string>, LRUMap<std::string,int>.')
